@@ -347,3 +347,9 @@ func runC18(r *core.Run) {
 	r.State(name)
 	r.Sample = map[string]any{"codec": name, "encoding_bytes": len(full), "prefixes_tried": len(cuts), "write_offsets_tried": len(offs)}
 }
+
+// NewSimReader returns a reader over data under chunk mode (0 whole, 1 one byte at a time,
+// 2 random chunks, 3 random chunks with the last bytes returned together with io.EOF).
+func NewSimReader(r *core.Run, data []byte, mode int) *SimReader {
+	return &SimReader{data: data, end: len(data), errAt: -1, mode: mode, r: r}
+}
